@@ -479,7 +479,7 @@ fn marks_check(c: &ClsD, s: &ClsD, r: &ClsD) -> Option<String> {
 
 const MANIFEST: &str = "META-INF/MANIFEST.MF";
 const MANIFEST_BYTES: &[u8] = b"Manifest-Version: 1.0\nMain-Class: net.minecraft.client.Main\n";
-fn is_sig(n: &str) -> bool { n.starts_with("META-INF/") && (n.ends_with(".SF") || n.ends_with(".RSA")) }
+fn is_sig(n: &str) -> bool { n.starts_with("META-INF/") && [".SF", ".RSA", ".DSA", ".EC"].iter().any(|e| n.ends_with(e)) }
 fn is_bundled(n: &str) -> bool { n.ends_with(".class") && !n.starts_with("net/minecraft/") && n.contains('/') }
 fn jar_domain(c: &[EntD], s: &[EntD]) -> bool {
 	c.iter().all(|ce| ce.name == MANIFEST || is_sig(&ce.name) || match s.iter().find(|se| se.name == ce.name) {
